@@ -39,19 +39,23 @@ def member(level, field, byte, idx, rnd):
         m['name'] = full
         if level == 1:
             m['exts'] = []
-            if field == 'user':
+            if field in ('user', 'owner'):
                 m['exts'].append((0x53, b'u' + b + b'r'))
-            if field == 'group':
+            if field in ('group', 'owner'):
                 m['exts'].append((0x52, b'g' + b + b'p'))
+            if field == 'owner' and idx % 2:
+                m['exts'].append((0x51, bytes([100, 0, 200, 0])))
     else:
         m['time'] = 1000000000
         ex = [(1, name)]
         if path:
             ex.append((2, path.replace(b'/', b'\xff')))
-        if field == 'user':
-            ex.append((0x53, b'u' + b + b'r'))
-        if field == 'group':
-            ex.append((0x52, b'g' + b + b'p'))
+        if field in ('user', 'owner'):
+            ex.append((0x53, (b'u' + b + b'r') if idx % 3 else (b + b'usr')))
+        if field in ('group', 'owner'):
+            ex.append((0x52, (b'g' + b + b'p') if idx % 3 != 1 else (b'grou' + b)))
+        if field == 'owner' and idx % 2:
+            ex.append((0x51, bytes([100, 0, 200, 0])))
         m['exts'] = ex
     return arc.Member(m, DATA, DATA)
 
@@ -88,13 +92,13 @@ def run(ctx):
     base = os.path.join(build.scratch_root(), 'c18')
     os.makedirs(base, exist_ok=True)
     os.chmod(base, 0o755)
-    fields = ['name', 'path', 'target', 'user', 'group', 'method', 'method-all']
+    fields = ['name', 'path', 'target', 'user', 'group', 'owner', 'method', 'method-all']
     archives = []
     per = 16
     planted = set()
     for field in fields:
         for lvl in (0, 1, 2, 3):
-            if field in ('user', 'group') and lvl == 0:
+            if field in ('user', 'group', 'owner') and lvl == 0:
                 continue
             byts = list(range(1, 256))
             if ctx.tier == 'quick':
